@@ -136,7 +136,13 @@ class InitialOrbitDetermination(ABC):
         Returns:
             ``bool``: whether or not obs are from the same pass
         """
-        sma = getSemiMajorAxis(norm(ob1_eci[:3]), norm(ob1_eci[3:]))
+        # [NOTE]: Before the orbit is determined only a position is known (a zero speed would halve the
+        #   semi-major axis); assume a circular orbit through that position in that case.
+        sma = (
+            getSemiMajorAxis(norm(ob1_eci[:3]), norm(ob1_eci[3:]))
+            if len(ob1_eci) > 3
+            else norm(ob1_eci[:3])
+        )
         period = getPeriod(sma)
         transit_time = (ob2_jdate - ob1_jdate) * DAYS2SEC
         if transit_time >= period:
